@@ -384,7 +384,8 @@ PROPS = {
                                  'DX.clone_struct_where', 'DX.clone_enum_where', 'DX.copy_enum_where', 'DX.copy_struct_where',
                                  'DX.ops_where', 'DX.default_struct_where', 'DX.default_struct_where_value', 'DX.debug_struct_where', 'DX.selBounds_walk', 'DX.cmp_struct_where', 'DX.cmp_enum_where', ]),
                   (CMP + 'C04Enum', ['DX.debug_enum_where', 'DX.default_enum_where', 'DX.default_enum_where_value', 'DX.deref_where']),
-                  ('DeriveExModel.Lemmas.Bounds', ['DX.FieldE.pushBoundsTo_contrib', 'DX.walk_true'])],
+                  ('DeriveExModel.Lemmas.Bounds', ['DX.FieldE.pushBoundsTo_contrib', 'DX.walk_true']),
+                  (CMP + 'C13Ren', ['DX.mentions_paramSet_rename', 'DX.whereClause_rename'])],
         l1=[('bounds', 6000, 200000), ('all', 3000, 100000), ('ops', 2000, 50000), ('cmpN', 2000, 50000)],
         labels=r'^e\d+:',
         kinds=('tokens', 'count', 'panic', 'nondet', 'parse'),
@@ -496,7 +497,7 @@ PROPS.update({
     ),
     'C13': dict(
         explanation='theorems: for every item and argument list every token the expander writes literally is punctuation, a keyword, a primitive type, a literal, a `__`-reserved name or one of three block-local names; every other generated identifier is a segment of an absolute ::core path, a member name or attribute content (attr_output_hygienic, derive_output_hygienic over provenance-carrying tokens). L1 ties every token to the implementation; L2: the well-typed grammar under a hostile-name dictionary in four scopes.',
-        theorems=[(CMP + 'C13Hyg', ['DX.attr_output_hygienic', 'DX.derive_output_hygienic', 'DX.hyg_makeIdent', 'DX.absPath_strs', 'DX.kind_paths_rooted']), ('DeriveExModel.Props.QuoteIdents', ['DX.quote_table_free_ok', 'DX.quote_table_abs_roots_core', 'DX.quote_table_no_relative_paths', 'DX.quote_table_singles_ok', 'DX.quote_table_binder_prefixes', 'DX.quote_table_formats_known', 'DX.quote_table_nonempty']),  (CMP + 'C13Ren', ['DX.mentions_rename', 'DX.mentions_paramSet_rename', 'DX.paramSet_rename', 'DX.isSelf_rename', 'DX.expandSelf_rename', 'DX.mayBeUnsized_rename']), (CMP + 'C20', ['DX.introduced_names_reserved', 'DX.makeIdent_shape', 'DX.helper_free_of_field_type',
+        theorems=[(CMP + 'C13Hyg', ['DX.attr_output_hygienic', 'DX.derive_output_hygienic', 'DX.hyg_makeIdent', 'DX.absPath_strs', 'DX.kind_paths_rooted']), ('DeriveExModel.Props.QuoteIdents', ['DX.quote_table_free_ok', 'DX.quote_table_abs_roots_core', 'DX.quote_table_no_relative_paths', 'DX.quote_table_singles_ok', 'DX.quote_table_binder_prefixes', 'DX.quote_table_formats_known', 'DX.quote_table_nonempty']),  (CMP + 'C13Ren', ['DX.mentions_rename', 'DX.mentions_paramSet_rename', 'DX.paramSet_rename', 'DX.isSelf_rename', 'DX.expandSelf_rename', 'DX.mayBeUnsized_rename', 'DX.whereClause_rename']), (CMP + 'C20', ['DX.introduced_names_reserved', 'DX.makeIdent_shape', 'DX.helper_free_of_field_type',
                                  'DX.expandSelf_no_self']),
                   ('DeriveExModel.Props.Tables', ['DX.trait_table_model'])],
         l1=[('all', 3000, 60000), ('cmpN', 2000, 40000), ('impl', 1000, 20000)],
